@@ -43,7 +43,7 @@ theorem SNoise.toM_toFull (R : SNoise ℝ (nb * bs) bs) (h : R.BlockDiag) : toM 
       simp [SNoise.toFull, SNoise.Rf, SNoise.blockAt, bdiag, bdiv_eq, bmod_eq, hpq]
 
 theorem toM_subCols {r c : Nat} (M : Mat ℝ r c) (v : Vec ℝ r) : toM (subCols M v) = Matrix.of (fun i j => M i j - v i) := rfl
-theorem toM_scaleCols {r c : Nat} (M : Mat ℝ r c) (w : Vec ℝ c) : toM (scaleCols M w) = Matrix.of (fun i j => M i j * w j) := rfl
+theorem toM_scaleCols {r c : Nat} (M : Mat ℝ r c) (w : Vec ℝ c) : toM (sukfScaleCols M w) = Matrix.of (fun i j => M i j * w j) := rfl
 
 theorem sqrtW_apply (wc : Vec ℝ s) (j : Fin s) : sqrtW wc j = Real.sqrt (wc j) := by
   simp [sqrtW]
@@ -110,11 +110,11 @@ def offX : Mat ℝ n s := subCols X m
 
 theorem sukf_Y_eq : toM (sukfComp inv R m X Yp wm wc y).Y
     = Matrix.of (fun i j => toM (offY Yp wm) i j * Real.sqrt (wc j)) := by
-  ext i j; simp [sukfComp, offY, scaleCols, sqrtW_apply]
+  ext i j; simp [sukfComp, offY, sukfScaleCols, sqrtW_apply]
 
 theorem sukf_Xw_eq : toM (sukfComp inv R m X Yp wm wc y).Xw
     = Matrix.of (fun i j => toM (offX m X) i j * Real.sqrt (wc j)) := by
-  ext i j; simp [sukfComp, offX, scaleCols, sqrtW_apply]
+  ext i j; simp [sukfComp, offX, sukfScaleCols, sqrtW_apply]
 
 theorem ukf_Pyy_eq : toM (ukfComp inv Rfull m P X Yp wm wc y).Pyy
     = toM (wOuter (offY Yp wm) wc (offY Yp wm)) + toM Rfull := by
